@@ -197,9 +197,68 @@ def phantom(r, F):
               "dropping the last handle of a phantom (disk-only) entry does not offer it to the pipe, or runs the eviction release on a record that was never in the container", ln=d.lo)
 
 
+def probation_lifecycle(r, F):
+    """'rewritten only if its block was already marked for imminent reclaim': the mark is per block *generation* — the age of a
+    loaded entry is read from the block's probation flag, the flag is set only by the picker, and it is cleared with every other
+    per-generation statistic when the block is reclaimed (reset covers every field of BlockStatistics)"""
+    BS = "foyer_storage::engine::block::manager::BlockStatistics"
+    rs = F.method(BS, "reset")
+    adt = None
+    for c in F.crates.values():
+        if BS in c.adts:
+            adt = c.adts[BS]
+    if adt is None:
+        raise AnchorMissing("BlockStatistics not found in the ADT table")
+    fields = [f[0] for f in adt["variants"][0]["fields"]]
+    stored = {}
+    for b in rs.calls_to(r"atomic::Atomic::<\w+>::store$"):
+        sl = backslice(rs, b.term.args[0], "prov")
+        for of, n in sl.fields:
+            if of == BS:
+                stored[n] = b.term.args[1].const_val()
+    for f in fields:
+        r.require(f in stored and stored[f] == 0, rs, "reset clears BlockStatistics." + f, "the per-generation statistic `%s` is zeroed when the block is recycled" % f,
+                  "BlockStatistics::reset does not clear `%s`: a recycled block keeps the previous generation's value%s" % (
+                      f, " — entries loaded from it are treated as `about to be reclaimed` forever and are rewritten to disk on every eviction" if f == "probation" else ""), ln=rs.lo)
+    # reset is called when a block has been reclaimed
+    rc = F.fn("<foyer_storage::engine::block::reclaimer::Reclaimer<K, V, P> as foyer_storage::engine::block::reclaimer::ReclaimerTrait>::reclaim::{closure#0}")
+    rr = rc.calls_to(r"BlockStatistics::reset$")
+    r.require(bool(rr) and rc.must_pass(0, [x.idx for x in rr]), rc, "reclaim resets the block's statistics", "every reclaimed block starts its next generation with cleared statistics",
+              "a reclaimed block is released without resetting its statistics", ln=rc.lo)
+    # the age handed to the memory tier is derived from that flag: true -> Old, false -> Young
+    ld = [c for c in F.descendants(F.method("foyer_storage::engine::block::engine::BlockEngine", "load")) if c.kind == "coroutine" and c.calls_to(r"serde::EntryDeserializer::deserialize$")][0]
+    lo = [b for b in ld.calls_to(r"atomic::Atomic::<bool>::load$") if backslice(ld, b.term.args[0], "prov").has_field("probation", BS)]
+    ok = False
+    for b in lo:
+        for (swb, neg) in tables._bool_switches_on(ld, b.idx):
+            tt, ft = tables.bool_switch_targets(swb)
+            if neg:
+                tt, ft = ft, tt
+            def ages(t):
+                reach = ld.reachable([t], avoid=[swb.idx, ft if t == tt else tt])
+                return {s.rv.j.get("variant") for bb in reach for s in ld.blocks[bb].stmts if s.k == "assign" and s.rv.k == "agg" and (s.rv.j.get("adt") or "").endswith("properties::Age")}
+            ok = ages(tt) == {"Old"} and ages(ft) == {"Young"}
+    r.require(ok, ld, "age = probation ? Old : Young", "an entry loaded from a block marked for reclaim is Old (rewritten on eviction), otherwise Young (skipped)",
+              "the age of a loaded entry is not derived as `probation ? Old : Young`", ln=ld.lo)
+    # only the picker sets the mark
+    n = 0
+    for f in F.all_fns("P"):
+        if f.crate.name != "foyer_storage":
+            continue
+        for b in f.calls_to(r"atomic::Atomic::<bool>::store$"):
+            sl = backslice(f, b.term.args[0], "prov")
+            if sl.has_field("probation", BS) and b.term.args[1].const_val() == 1:
+                n += 1
+                root = F.P.get(f.root, f)
+                r.require("eviction::" in root.short, f, "probation set only by eviction pickers", "the mark is set by a picker", "the probation mark is set outside the eviction pickers", ln=b.term.ln)
+    if n < 1:
+        r.fail(None, "sites", "no site setting the probation mark found")
+
+
 def run(chk, F):
     chk.run_rule("C12.inmem-guard", "every Store::enqueue of the hybrid layer is control-dependent on location != InMem of the entry written", 5, inmem_guard, F)
     chk.run_rule("C12.policy-guard", "insert-time and post-fetch writes only under WriteOnInsertion; the eviction pipe only for (store, WriteOnEviction)", 5, policy_guard, F)
     chk.run_rule("C12.origin-only", "the post-fetch write is control-dependent on source() == Outer", 1, origin_only, F)
     chk.run_rule("C12.young", "BlockEngine::enqueue: Age::Young returns before sequence allocation and submit", 3, young, F)
+    chk.run_rule("C12.probation-lifecycle", "the reclaim mark is per block generation: set by pickers, read into the entry's age, cleared by reset (which covers every field) on reclaim", 6, probation_lifecycle, F)
     chk.run_rule("C12.phantom", "filter rejection / OnDisk advice make the record a phantom; its last drop pipes it and skips release", 3, phantom, F)
